@@ -159,7 +159,7 @@ def percent_format(template, args):
 
 class TextExec(SeqExec):
     def global_name(self, name, p):
-        if name in ("str", "repr", "hex", "id", "callable", "isinstance"):
+        if name in ("str", "repr", "hex", "id", "callable", "isinstance", "type"):
             yield p, V("builtin", name)
         elif name in getattr(self.reg, "globals", {}):
             yield p, self.reg.globals[name]
@@ -821,6 +821,9 @@ class TextExec(SeqExec):
             nm = toany(pos[1])
             d = toany(pos[2])
             yield p, V("any", If(HAS(pos[0].t, nm), ATTR(pos[0].t, nm), d))
+            return
+        if name == "type" and len(pos) == 1 and pos[0].k == "segs":
+            yield p, V("pytype", "list")        # built by a list comprehension in this function
             return
         if name == "callable" and len(pos) == 1 and pos[0].k == "selector":
             yield p, vbool(pos[0].t[0])
